@@ -143,11 +143,33 @@ def discharge(ob, timeout_s=10, second_solver=False):
         return ob
     query = ob.hyps + [z3.Not(ob.goal)]
     has_q = any(is_quantified(f) for f in query)
-    first = timeout_s * 1000 if not has_q else min(3000, timeout_s * 1000)
-    st, model, solver = _check(query, first)
     ob.backend = "z3-5.1(py)"
-    if st == SAT and has_q:
-        ob.backend = "z3-5.1(py) (model of the quantified query)"
+    st, model, solver = UNKNOWN, None, None
+    if has_q:
+        # quantifier instantiation is order sensitive (the same query is refuted in 10 ms or not in 10 s):
+        # several short attempts with different seeds before a long one
+        for seed, mbqi in ((0, True), (1, True), (2, False), (3, True), (4, False)):
+            s1 = z3.Solver()
+            s1.set("timeout", 800)
+            s1.set("smt.random_seed", seed)
+            if not mbqi:
+                s1.set("smt.mbqi", False)
+            for f in query:
+                s1.add(f)
+            r = s1.check()
+            solver = s1
+            if r == z3.unsat:
+                st = UNSAT
+                break
+            if r == z3.sat:
+                st, model = SAT, s1.model()
+                ob.backend = "z3-5.1(py) (model of the quantified query)"
+                break
+    if st == UNKNOWN:
+        first = timeout_s * 1000 if not has_q else min(3000, timeout_s * 1000)
+        st, model, solver = _check(query, first)
+        if st == SAT and has_q:
+            ob.backend = "z3-5.1(py) (model of the quantified query)"
     if st == UNKNOWN:
         # quantified hypotheses: finite instantiation (sound for unsat: it only weakens the hypotheses)
         inst = instantiate(query, rounds=2)
